@@ -742,3 +742,10 @@ for _mp in (False, True):
                  {"group_key_list": "chunks:int:int64", "group_counts": "arr:int:int64", "key_map": "arr:int:int64" if _mp else "none", "mask": "arr:bool:bool" if _m else "none"}, _cs_contract(_mp, _m),
                  specs={"PS": PS, "XK": XK, "CntK": CntK, "offk": offk, "chunkkey": None, "GrpOf": z3.Function("GrpOf", I, I), "RankOf": z3.Function("RankOf", I, I)}, setup=_late_chunkkey,
                  props=("C02", "C16", "C05", "C06"), lemma_deps=("L-cnt-mono", "L-ps-mono"))
+
+# ----------------------------------------------------------------------------- util.jit_is_null: the three bodies numba's overload of is_null resolves to
+# The engine resolves every `is_null(x)` in a kernel by the KIND of x (float -> isnan, integer -> == -2^63, bool -> False); these records put the code that numba really
+# compiles for each kind under that very contract, so the null convention used by every other proof is checked against the source instead of assumed.
+# (Which body is selected for which numba type is a structural obligation on the dispatcher, props/c12.py; MIN_INT's value is a finite fact checked there as well.)
+for _k, (_vk, _ens) in enumerate((("float", "result == isnanf(x)"), ("int", f"result == (x == {MIN_INT})"), ("bool", "result == False"))):
+    register(UTIL, f"jit_is_null.is_null#{_k}", _vk, {"x": _vk}, {"ensures": [_ens]}, specs={"isnanf": lambda f: F.is_NaN(f)}, props=("C01", "C06", "C12", "C20"))
